@@ -94,26 +94,26 @@ const kctlRule = "Each run draws swarm knobs (sizes, fault kinds, lag, interleav
 
 var props = []propDef{
 	{ID: "C01", Level: "exploration", Rule: kctlRule + modeARule, Assumptions: kctlAssume, Components: kctlComponents,
-		Batches: []batch{{Engine: "kctl", Variant: "", Runs: 96000, RunsT: 2000000, WallS: 150, WallST: 1500, Note: "mode B: the controller process"},
+		Batches: []batch{{Engine: "kctl", Variant: "", Runs: 96000, RunsT: 2000000, WallS: 150, WallST: 900, Note: "mode B: the controller process"},
 			{Engine: "kctl", Variant: "modeA", Runs: 64000, RunsT: 1500000, WallS: 100, WallST: 900, Note: "mode A: the allocator API driven directly (explicit assign / allocate / release histories)"}}},
 	{ID: "C02", Level: "exploration", Rule: kctlRule + modeARule, Assumptions: kctlAssume, Components: kctlComponents,
-		Batches: []batch{{Engine: "kctl", Variant: "", Runs: 96000, RunsT: 2000000, WallS: 150, WallST: 1500, Note: "mode B: the controller process"},
+		Batches: []batch{{Engine: "kctl", Variant: "", Runs: 96000, RunsT: 2000000, WallS: 150, WallST: 900, Note: "mode B: the controller process"},
 			{Engine: "kctl", Variant: "modeA", Runs: 64000, RunsT: 1500000, WallS: 100, WallST: 900, Note: "mode A: the allocator API driven directly (explicit assign / allocate / release histories)"}}},
 	{ID: "C03", Level: "exploration", Rule: kctlRule, Assumptions: kctlAssume, Components: kctlComponents,
-		Batches: []batch{{Engine: "kctl", Variant: "", Runs: 96000, RunsT: 2000000, WallS: 150, WallST: 1500}}},
+		Batches: []batch{{Engine: "kctl", Variant: "", Runs: 96000, RunsT: 2000000, WallS: 150, WallST: 900}}},
 	{ID: "C06", Level: "fault_enumeration", Rule: kctlRule + "  Crash-point enumeration batch: for each sampled fault-free history (<= 25 operations) one run per crash opportunity it passes (every scheduler step boundary, before and after every status write), i.e. every single-crash point of that history under that schedule; the random batch adds multi-crash and write-failure sequences.", Assumptions: kctlAssume, Components: kctlComponents,
-		Batches: []batch{{Engine: "kctl", Variant: "crashat", Enum: true, Runs: 400, RunsT: 8000, WallS: 150, WallST: 1200, Note: "crash-point enumeration: every single crash point of each sampled history"},
-			{Engine: "kctl", Variant: "faults=on", Runs: 96000, RunsT: 2000000, WallS: 150, WallST: 1500, Note: "random multi-fault sequences"}}},
+		Batches: []batch{{Engine: "kctl", Variant: "crashat", Enum: true, Runs: 400, RunsT: 8000, WallS: 150, WallST: 900, Note: "crash-point enumeration: every single crash point of each sampled history"},
+			{Engine: "kctl", Variant: "faults=on", Runs: 96000, RunsT: 2000000, WallS: 150, WallST: 900, Note: "random multi-fault sequences"}}},
 	{ID: "C07", Level: "exploration", Rule: kctlRule, Assumptions: kctlAssume, Components: kctlComponents,
-		Batches: []batch{{Engine: "kctl", Variant: "", Runs: 96000, RunsT: 2000000, WallS: 150, WallST: 1500}}},
+		Batches: []batch{{Engine: "kctl", Variant: "", Runs: 96000, RunsT: 2000000, WallS: 150, WallST: 900}}},
 	{ID: "C11", Level: "exploration", Rule: kctlRule + modeARule, Assumptions: kctlAssume, Components: kctlComponents,
-		Batches: []batch{{Engine: "kctl", Variant: "", Runs: 96000, RunsT: 2000000, WallS: 150, WallST: 1500, Note: "mode B: the controller process"},
+		Batches: []batch{{Engine: "kctl", Variant: "", Runs: 96000, RunsT: 2000000, WallS: 150, WallST: 900, Note: "mode B: the controller process"},
 			{Engine: "kctl", Variant: "modeA", Runs: 64000, RunsT: 1500000, WallS: 100, WallST: 900, Note: "mode A: the allocator API driven directly (explicit assign / allocate / release histories)"}}},
 }
 
 func spkProp(id string) propDef {
 	pd := propDef{ID: id, Level: "exploration", Rule: kspkRule, Assumptions: kspkAssume, Components: kspkComponents,
-		Batches: []batch{{Engine: "kspk", Variant: "", Runs: 36000, RunsT: 600000, WallS: 170, WallST: 1500}}}
+		Batches: []batch{{Engine: "kspk", Variant: "", Runs: 36000, RunsT: 600000, WallS: 170, WallST: 900}}}
 	if id == "C18" {
 		pd.Rule += "  Controller half: in every K-ctl run, at each quiescence a duplicate event is delivered to the real PoolReconciler (fresh listing and map orders); the pool handler must not be invoked again."
 		pd.Batches[0].Note = "speaker process: ConfigReconciler fork check"
@@ -214,16 +214,16 @@ func init() {
 			{Engine: "gconcspk", Variant: "", Runs: 12000, RunsT: 400000, WallS: 120, WallST: 900, Note: "speaker process"},
 			{Engine: "gl2", Variant: "", Runs: 30000, RunsT: 600000, WallS: 60, WallST: 600, Note: "layer-2 announcer: announce / withdraw handlers against the periodic announcement loop and the responders, with a drawn (small) announcement-queue capacity: no deadlock, no panic (no race detector in this batch)"}}})
 	props = append(props, propDef{ID: "C13", Level: "exploration", Rule: gl2Rule, Assumptions: gl2Assume, Components: gl2Components,
-		Batches: []batch{{Engine: "gl2", Variant: "", Runs: 60000, RunsT: 1500000, WallS: 170, WallST: 1500}}})
+		Batches: []batch{{Engine: "gl2", Variant: "", Runs: 60000, RunsT: 1500000, WallS: 170, WallST: 900}}})
 	props = append(props, propDef{ID: "C19", Level: "exploration", Rule: gfrrRule + " " + gfrrk8sRule, Assumptions: gfrrAssume, Components: merge(gfrrComponents, gfrrk8sComponents),
-		Batches: []batch{{Engine: "gfrr", Variant: "", Runs: 20000, RunsT: 600000, WallS: 170, WallST: 1200},
+		Batches: []batch{{Engine: "gfrr", Variant: "", Runs: 20000, RunsT: 600000, WallS: 170, WallST: 900},
 			{Engine: "gfrrk8s", Variant: "", Runs: 10000, RunsT: 300000, WallS: 100, WallST: 600, Note: "frr-k8s half: debouncer + reconciler delivery of the FRRConfiguration"}}})
 	props = append(props, propDef{ID: "C15", Level: "exploration", Rule: gfrrk8sRule, Assumptions: gfrrk8sAssume, Components: gfrrk8sComponents,
-		Batches: []batch{{Engine: "gfrrk8s", Variant: "", Runs: 20000, RunsT: 1000000, WallS: 170, WallST: 1500}}})
+		Batches: []batch{{Engine: "gfrrk8s", Variant: "", Runs: 20000, RunsT: 1000000, WallS: 170, WallST: 900}}})
 	props = append(props, propDef{ID: "C14", Level: "exploration", Rule: gfrrRule, Assumptions: gfrrAssume, Components: gfrrComponents,
-		Batches: []batch{{Engine: "gfrr", Variant: "", Runs: 20000, RunsT: 600000, WallS: 170, WallST: 1500}}})
+		Batches: []batch{{Engine: "gfrr", Variant: "", Runs: 20000, RunsT: 600000, WallS: 170, WallST: 900}}})
 	for _, id := range []string{"C16", "C17"} {
-		bs := []batch{{Engine: "gnative", Variant: "", Runs: 18000, RunsT: 500000, WallS: 170, WallST: 1500}}
+		bs := []batch{{Engine: "gnative", Variant: "", Runs: 18000, RunsT: 500000, WallS: 170, WallST: 900}}
 		if id == "C16" {
 			bs = append(bs, batch{Engine: "gnative", Variant: "openfuzz", Runs: 20000, RunsT: 300000, WallS: 100, WallST: 600, Note: "the OPEN reader as a stream consumer: generated and mutated OPEN messages, fragmented delivery, trailing KEEPALIVE"})
 		}
